@@ -164,26 +164,6 @@ Fixpoint tree_eqb (a b : tree) : bool :=
        end) kka kkb
   end.
 
-(* what the independent decoder is expected to return for the value the API calls built:
-   the built value after MarshalBinary's write-backs, with two presentation differences -
-   a note's trailing padding belongs to the note on the wire, a slot filled by copy() is
-   seen at its fixed width, and an empty packet-out payload is no payload *)
-Fixpoint canon (t : tree) : tree :=
-  match t with
-  | T k vs kids =>
-    let kids' := map canon kids in
-    match k with
-    | KNxNote => match vs with
-                 | [a; b; c; d; VB note] => T k [a; b; c; d; VB (note ++ zeros (pad8 (10 + length note)))] kids'
-                 | _ => T k vs kids' end
-    | KPortMod => match vs with
-                  | h1 :: h2 :: h3 :: h4 :: p :: VB hw :: rest => T k (h1 :: h2 :: h3 :: h4 :: p :: VB (fit 6 hw) :: rest) kids'
-                  | _ => T k vs kids' end
-    | KPacketOut => T k vs (filter (fun x => match x with T KRaw [VB []] [] => false | _ => true end) kids')
-    | _ => T k vs kids'
-    end
-  end.
-
 Definition spec_of (e : erec) (b : list byte) : option tree :=
   let whole (r : option (tree * list byte)) := match r with Some (t, []) => Some t | _ => None end in
   match e with
